@@ -160,10 +160,52 @@ func c16TType(kind string) string {
 func c16SessionOpts(kind string, n int, ops time.Duration) []util.Option {
 	opts := []util.Option{options.WithTimeoutOps(ops), options.WithTransportReadSize(n),
 		options.WithReadDelay(50 * time.Microsecond)}
-	if kind != "openssh" { // the real ssh asks for the password on the pty: in-channel authentication
+	// in-channel authentication is left on where a transport asks for it (system: the channel looks
+	// for a password prompt or the device prompt; telnet: username / password prompts; standard: the
+	// transport reports that it needs none). Only the ideal pipe has nothing to ask.
+	if kind == "ideal" {
 		opts = append(opts, options.WithAuthBypass())
 	}
+	opts = append(opts, options.WithAuthUsername("u"), options.WithAuthPassword("p"))
 	return opts
+}
+
+// c16TelnetLike is the ideal pipe of a telnet login session: the simulator itself as the transport,
+// flagged as wanting in-channel telnet authentication like transport.Telnet.
+type c16TelnetLike struct{ *sim.CLI }
+
+func (c16TelnetLike) GetInChannelAuthType() transport.InChannelAuthType {
+	return transport.InChannelAuthTelnet
+}
+
+// c16LoginDevice asks for a user name and a password before it shows its prompt.
+func c16LoginDevice() *sim.CLI {
+	dev := c16CLIDevice()
+	inner := dev.Handle
+	dev.Mode = "login-user"
+	dev.Prompt = func(d *sim.CLI) string {
+		if d.Mode == "login-user" {
+			return "Username: "
+		}
+		return "router#"
+	}
+	dev.Handle = func(d *sim.CLI, line string) string {
+		switch d.Mode {
+		case "login-user":
+			d.Mode, d.Hidden = "login-pass", true
+			return "Password: "
+		case "login-pass":
+			d.Hidden = false
+			if line == "p" {
+				d.Mode = "exec"
+				return "\nlast login: never\n"
+			}
+			d.Mode = "login-user"
+			return "\nLogin incorrect\n"
+		}
+		return inner(d, line)
+	}
+	return dev
 }
 
 const (
@@ -173,11 +215,22 @@ const (
 )
 
 func c16CLISession(kind string, cmds []string, n int, seed uint64, ops time.Duration) c16Session {
+	return c16CLISessionL(kind, cmds, n, seed, ops, false)
+}
+
+func c16CLISessionL(kind string, cmds []string, n int, seed uint64, ops time.Duration, login bool) c16Session {
 	var s c16Session
 	dev := c16CLIDevice()
+	if login {
+		dev = c16LoginDevice()
+	}
 	opts := c16SessionOpts(kind, n, ops)
 	stop := func() error { return nil }
-	if kind == "ideal" {
+	if kind == "ideal" && login {
+		dev.Start()
+		opts = []util.Option{options.WithTimeoutOps(ops), options.WithTransportReadSize(n), options.WithReadDelay(50 * time.Microsecond),
+			options.WithAuthUsername("u"), options.WithAuthPassword("p"), options.WithCustomTransport(c16TelnetLike{dev})}
+	} else if kind == "ideal" {
 		dev.Start()
 		opts = append(opts, options.WithCustomTransport(dev))
 	} else {
@@ -382,6 +435,11 @@ func c16SessionPair(what, kind string, n int, seed uint64) (ideal, real c16Sessi
 		cmds := c16Cmds(vlib.NewRng(seed))
 		ideal = c16CLISession("ideal", cmds, n, seed, c16SessionOps)
 		real = c16CLISession(kind, cmds, n, seed, c16SessionOps)
+	case "cli-login":
+		// the device asks for user name and password: in-channel telnet authentication
+		cmds := c16Cmds(vlib.NewRng(seed))
+		ideal = c16CLISessionL("ideal", cmds, n, seed, c16SessionOps, true)
+		real = c16CLISessionL(kind, cmds, n, seed, c16SessionOps, true)
 	case "cli-tilde":
 		// input lines that start with '~' (the OpenSSH client's escape character when it has a tty)
 		cmds := []string{"show version", "~~ banner line", "show clock"}
@@ -544,6 +602,9 @@ func c16Sessions(c *ctx) {
 	}
 	for _, kind := range append([]string{"system", "standard", "telnet"}, map[bool][]string{true: {"openssh"}}[haveSSH]...) {
 		jobs = append(jobs, job{"cli-tilde", kind, 8192, r.U64()})
+	}
+	for i := 0; i < rounds; i++ {
+		jobs = append(jobs, job{"cli-login", "telnet", []int{8192, 64, 1500, 333}[i%4], r.U64()})
 	}
 	// run several sessions at a time, record them in generation order
 	type pair struct {
